@@ -31,14 +31,19 @@ Arrs(S, n) == UNION {Perms(T) : T \in {T \in SUBSET S : Cardinality(T) = n}}    
 RenameMaps == UNION {{[i \in DOMAIN ks |-> <<ks[i], f[i]>>] : f \in [DOMAIN ks -> SeqSet(Vals)]} : ks \in SubSeqs(Keys)}
 Visibles == {v \in SubSeqs(Cols) : v # <<>>}
 
+(* form: how the columns are named in the call - through the table (t.a), as a placeholder (C.a) or as a string ("a"); all three *)
+(* must mean the same column                                                                                                      *)
+Forms == {"col", "cname", "str"}
 Configs ==
-       {[verb |-> "rename", vis |-> v, map |-> m, args |-> <<>>] : v \in Visibles, m \in RenameMaps}
-  \cup UNION {{[verb |-> "select", vis |-> v, map |-> <<>>, args |-> a] : a \in UNION {Arrs(SeqSet(v), n) : n \in 1..Len(v)}} : v \in Visibles}
-  \cup UNION {{[verb |-> "drop", vis |-> v, map |-> <<>>, args |-> a] : a \in {s \in SubSeqs(v) : s # v}} : v \in Visibles}
-  \cup {[verb |-> "mutate", vis |-> v, map |-> <<>>, args |-> a] : v \in Visibles, a \in UNION {Arrs(SeqSet(Vals), n) : n \in 1..2}}
+       {[verb |-> "rename", vis |-> v, map |-> m, args |-> <<>>, form |-> f] : v \in Visibles, m \in RenameMaps, f \in {"str"}}
+  \cup UNION {{[verb |-> "rename", vis |-> v, map |-> m, args |-> <<>>, form |-> f] :
+                 m \in {m \in RenameMaps : Len(m) <= 2 /\ \A i \in DOMAIN m : m[i][1] \in SeqSet(v)}, f \in {"col", "cname"}} : v \in Visibles}
+  \cup UNION {{[verb |-> "select", vis |-> v, map |-> <<>>, args |-> a, form |-> f] : a \in UNION {Arrs(SeqSet(v), n) : n \in 1..Len(v)}, f \in Forms} : v \in Visibles}
+  \cup UNION {{[verb |-> "drop", vis |-> v, map |-> <<>>, args |-> a, form |-> f] : a \in {s \in SubSeqs(v) : s # v}, f \in Forms} : v \in Visibles}
+  \cup {[verb |-> "mutate", vis |-> v, map |-> <<>>, args |-> a, form |-> f] : v \in Visibles, a \in UNION {Arrs(SeqSet(Vals), n) : n \in 1..2}, f \in {"col", "cname"}}
   \* summarize: map = the grouping columns (as pairs <<name, name>>), args = the names of the aggregates
-  \cup UNION {{[verb |-> "summarize", vis |-> v, map |-> [i \in DOMAIN gs |-> <<gs[i], gs[i]>>], args |-> a] :
-                 gs \in UNION {Arrs(SeqSet(v), n) : n \in 0..(IF Len(v) >= 2 THEN 2 ELSE 1)}, a \in UNION {Arrs(SeqSet(Vals), n) : n \in 1..2}} : v \in Visibles}
+  \cup UNION {{[verb |-> "summarize", vis |-> v, map |-> [i \in DOMAIN gs |-> <<gs[i], gs[i]>>], args |-> a, form |-> f] :
+                 gs \in UNION {Arrs(SeqSet(v), n) : n \in 0..(IF Len(v) >= 2 THEN 2 ELSE 1)}, a \in UNION {Arrs(SeqSet(Vals), n) : n \in 1..2}, f \in Forms} : v \in Visibles}
 
 Lookup(m, n) == IF \E i \in DOMAIN m : m[i][1] = n THEN m[CHOOSE i \in DOMAIN m : m[i][1] = n][2] ELSE n
 
